@@ -1165,6 +1165,88 @@ let fold_case (input : string) (obs0 : string) : verdict =
       { model; oracle = !oracle }
   | _ -> failwith "fold: bad input"
 
+(* ---- gotype values back to text ---- *)
+let hexk (b : z list) : string = hex_of_bytes b
+let rec gtype_tok (t : gtype) : string =
+  match t with
+  | TBool -> "b" | TString -> "s" | TIface -> "any" | TUnsup -> "X"
+  | TNum k -> nkind_name k
+  | TPtr u -> "P " ^ gtype_tok u
+  | TSlice u -> "L " ^ gtype_tok u
+  | TArray (n, u) -> "A " ^ string_of_z n ^ " " ^ gtype_tok u
+  | TMap u -> "M " ^ gtype_tok u
+  | TMapK u -> "MK " ^ gtype_tok u
+  | TNamed u -> "N " ^ gtype_tok u
+  | TStruct fs ->
+      String.concat " " (("S " ^ string_of_int (List.length fs)) ::
+                         List.map (fun ((name, tag), ft) -> hexk name ^ " " ^ hexk tag ^ " " ^ gtype_tok ft) fs)
+
+let rec gvalue_tok (t : gtype) (v : gvalue) : string =
+  let t = match t with TNamed u -> u | _ -> t in
+  match t, v with
+  | _, GBool true -> "t"
+  | _, GBool false -> "f"
+  | _, GStr s -> "s:" ^ hex_of_bytes s
+  | _, GNum z -> string_of_z z
+  | _, GNil -> "nil"
+  | _, GIface (dt, dv) -> "I " ^ gtype_tok dt ^ " " ^ gvalue_tok dt dv
+  | TPtr u, GPtr x -> "& " ^ gvalue_tok u x
+  | (TSlice u | TArray (_, u)), GList l ->
+      String.concat " " (("[ " ^ string_of_int (List.length l)) :: List.map (gvalue_tok u) l)
+  | (TMap u | TMapK u), GMap kvs ->
+      String.concat " " (("{ " ^ string_of_int (List.length kvs)) :: List.map (fun (k, x) -> hexk k ^ " " ^ gvalue_tok u x) kvs)
+  | TStruct fs, GStruct vs ->
+      let rec go fs vs = match fs, vs with
+        | (_, ft) :: fr, x :: vr -> gvalue_tok ft x :: go fr vr
+        | _, _ -> [] in
+      String.concat " " (("( " ^ string_of_int (List.length vs)) :: go fs vs)
+  | _, _ -> "?"
+
+(* float -> integer conversions outside the target's range are implementation-defined in Go *)
+let rec has_int_kind (t : gtype) : bool =
+  match t with
+  | TNum (KFloat32 | KFloat64) -> false
+  | TNum _ -> true
+  | TPtr u | TSlice u | TArray (_, u) | TMap u | TMapK u | TNamed u -> has_int_kind u
+  | TStruct fs -> List.exists (fun (_, ft) -> has_int_kind ft) fs
+  | _ -> false
+let rec scalars_of_event (e : event) : scalar list =
+  match e with
+  | EVal s -> [ s ]
+  | EXArr (_, l) -> l
+  | EXObj (_, ms) -> List.map snd ms
+  | _ -> []
+let risky_float (evs : event list) : bool =
+  List.exists (fun e -> List.exists (function
+      | SNum ((KFloat32 | KFloat64) as k, z) -> not (conv_defined k KInt8 z)
+      | _ -> false) (scalars_of_event e)) evs
+
+(* ---- unfold cases ---- *)
+let unfold_case (input : string) (obs0 : string) : verdict =
+  let obs, _ = split_flags_all obs0 in
+  match Str.split_delim (Str.regexp_string "|") input with
+  | [ _cache; tseg; oseg; eseg ] ->
+      let t, _ = parse_gtype (words tseg) in
+      let old = if String.trim oseg = "zero" then zero_of t else fst (parse_gvalue t (words oseg)) in
+      let evs = events_of_toks (words eseg) in
+      let model =
+        match unfold_value t old evs with
+        | USetupErr _ -> "SETUPERR"
+        | UDone v -> "R ok V " ^ gvalue_tok t v
+        | UMore -> "R more"
+        | UFail _ -> "R err" in
+      let impl = strip_depth obs in
+      let depth = match Str.bounded_split_delim (Str.regexp_string " D ") obs 2 with [ _; d ] -> Some d | _ -> None in
+      let oracle = ref [] in
+      (if impl = "PANIC" || impl = "HANG" then oracle := ("C14", "unfolder crashed or hung: " ^ impl) :: !oracle);
+      (match depth with
+       | Some d when starts_with impl "R ok" && d <> "0,0,0,0,0,0,0,0,0" ->
+           oracle := ("C17", "unfolder stacks not idle after a complete document: " ^ d) :: !oracle
+       | _ -> ());
+      let model = if risky_float evs && has_int_kind t && impl <> "PANIC" && impl <> "HANG" then impl else model in
+      { model = (match depth with Some d -> model ^ " D " ^ d | None -> model); oracle = !oracle }
+  | _ -> failwith "unfold: bad input"
+
 let fmts = [ cbor_fmt; ubj_fmt; json_fmt ]
 let () = all_fmts := fmts
 let fmt_handlers =
@@ -1176,7 +1258,7 @@ let fmt_handlers =
 let canon_obs (o : string) : string =
   if contains o "HANG" then "HANG" else if contains o "PANIC" then "PANIC" else o
 
-let handlers : (string * (string -> string -> verdict)) list = ("lru", lru_case) :: ("fold", fold_case) :: fmt_handlers
+let handlers : (string * (string -> string -> verdict)) list = ("lru", lru_case) :: ("fold", fold_case) :: ("unfold", unfold_case) :: fmt_handlers
 
 
 let () =
